@@ -532,3 +532,29 @@ mod tests {
         assert_close(&read_vec(&mut math, &recovered), &z_orig, 1e-12);
     }
 }
+
+#[cfg(nuts_rs_verif)]
+impl<M: Math> LowRankMassMatrix<M> {
+    /// Verification hook: the diagonal part, `(logdet, id)`, and of the low-rank part (if any)
+    /// `(sqrt eigenvalues, 1/sqrt eigenvalues, logdet contribution, mu)`.
+    #[allow(clippy::type_complexity)]
+    pub fn verif_fields(
+        &self,
+        math: &mut M,
+    ) -> (
+        (Box<[f64]>, Box<[f64]>, Box<[f64]>, f64, i64),
+        f64,
+        i64,
+        Option<(Box<[f64]>, Box<[f64]>, f64, Box<[f64]>)>,
+    ) {
+        let inner = self.inner.as_ref().map(|i| {
+            (
+                math.eigs_as_array(&i.vals_sqrt),
+                math.eigs_as_array(&i.vals_sqrt_inv),
+                i.logdet_contribution,
+                math.box_array(&i.mu),
+            )
+        });
+        (self.diag.verif_fields(math), self.logdet, self.id, inner)
+    }
+}
